@@ -47,7 +47,8 @@ IncrefPE(p, s) ==      \* prefer an equal entry, then the lowest free slot
      ELSE IF fr # {} THEN [pool |-> [p EXCEPT ![MinOf(fr)] = Fresh(s)], id |-> MinOf(fr)]
      ELSE [pool |-> Append(p, Fresh(s)), id |-> Len(p) + 1]
 
-CONSTANT Strategy      \* "ff" | "pe"
+CONSTANT Strategy,     \* "ff" | "pe"
+         EmptyLive     \* named deviation: the empty string is interned as a live entry (pinned code); FALSE in every check
 Incref(p, s) == IF Strategy = "pe" THEN IncrefPE(p, s) ELSE IncrefFF(p, s)
 
 Decref(p, k) ==
@@ -56,7 +57,7 @@ Decref(p, k) ==
 \* Interning a row of values: strings left to right; "" and null are the null cell.
 InternRow(p, row) ==
   FoldLeft(LAMBDA acc, v :
-             IF IsStr(v) /\ v.s # <<>>
+             IF IsStr(v) /\ (v.s # <<>> \/ EmptyLive)
              THEN LET x == Incref(acc.pool, v.s) IN [pool |-> x.pool, cells |-> Append(acc.cells, Ref(x.id))]
              ELSE [pool |-> acc.pool, cells |-> Append(acc.cells, Norm(v))],
            [pool |-> p, cells |-> <<>>], row)
